@@ -392,14 +392,29 @@ func cmdRender(args []string) {
 			for _, shape := range shapes {
 				resume := r.chance(0.5)
 				pstate := pick(r, []promise.State{promise.Pending, promise.Resolved, promise.Rejected, promise.Canceled, promise.Timedout})
+				causeShape := r.intn(5)
 				stub.reply = func(q *t_api.Request) (*t_api.Response, error) {
 					if st >= 50000 {
 						// platform-level outcomes arrive as errors, with or without an underlying cause (the api's own
 						// refusals - shutting down, submission queue full - carry none)
-						if resume {
-							return nil, t_api.NewError(st, nil)
+						// the cause may itself be a resonate error raised further down (a coroutine that wraps the aio
+						// layer's refusal): the reply is still the one of the OUTER status
+						inner := t_api.StatusAIOSubmissionQueueFull
+						if st == inner {
+							inner = t_api.StatusAIOStoreError
 						}
-						return nil, t_api.NewError(st, errors.New("injected"))
+						switch causeShape {
+						case 0:
+							return nil, t_api.NewError(st, nil)
+						case 1:
+							return nil, t_api.NewError(st, errors.New("injected"))
+						case 2:
+							return nil, t_api.NewError(st, t_api.NewError(inner, nil))
+						case 3:
+							return nil, t_api.NewError(st, t_api.NewError(inner, errors.New("injected")))
+						default:
+							return nil, t_api.NewError(st, fmt.Errorf("wrapped: %w", t_api.NewError(inner, nil)))
+						}
 					}
 					return shapedResponse(q.Kind, st, shape, resume, pstate), nil
 				}
